@@ -1,4 +1,7 @@
 import GA.Lemmas.Ops
+import GA.Lemmas.IterOwn
+import GA.Bridge.Iter
+import GA.Bridge.IterOwn
 /-!
 # C04 — a panic in caller-supplied code never loses or double-drops an element
 
@@ -151,6 +154,113 @@ theorem collect_ledger (boxed try_ : Bool) (n : Nat) (hint : Nat × Option Nat) 
   · simpa using fromIter_ledger scriptSrc (fun _ => []) (fun _ => True) scriptSrc_contract rfl n hint sc trivial
   · simpa using tryFromIter_ledger scriptSrc (fun _ => []) (fun _ => True) scriptSrc_contract rfl n hint sc trivial
 
+/-! ### the by-value iterator's own closure-driven methods -/
+
+theorem foldLoop_takes_nil (sd : Side) (f : Nat → Bool) (k : Nat) (c : Consumer) :
+    takes (foldLoop (foldSrc sd f) k c).1 = [] := by
+  induction k generalizing c with
+  | zero => simp [foldLoop]
+  | succ k ih =>
+    simp only [foldLoop]
+    cases hx : c.slots[c.idx]? with
+    | none => simp [foldSrc, hx]
+    | some x =>
+      by_cases hf : f c.idx = true
+      · have : (foldSrc sd f).step c = .yield [arg sd.owns c.idx x] x (sd.after c c.pos true) := by simp [foldSrc, hx, hf]
+        rw [this]
+        simp only [takes_append, ih]
+        cases sd.owns <;> simp [arg, takes]
+      · have : (foldSrc sd f).step c = .panic [arg sd.owns c.idx x, Ev.panic c.idx] (sd.after c c.pos false) := by
+          simp [foldSrc, hx, hf]
+        rw [this]
+        have hd : takes ((foldSrc sd f).dropEv (sd.after c c.pos false)) = [] := by
+          show takes (sd.dropEv _) = []
+          exact (side_dropEv sd _).2.2.1
+        simp only [takes_append, hd]
+        cases sd.owns <;> simp [arg, takes]
+
+/-- with enough fuel, a fold that did not panic has read its consumer to the end -/
+theorem fold_ok_exhausts (sd : Side) (hg : sd.GoodA) (f : Nat → Bool) (k : Nat) (c : Consumer) (hs : c.Sync)
+    (hk : c.slots.length - c.idx < k) (hok : (foldLoop (foldSrc sd f) k c).2.1 = true) :
+    sd.ownedOf (foldLoop (foldSrc sd f) k c).2.2 = [] := by
+  induction k generalizing c with
+  | zero => omega
+  | succ k ih =>
+    cases hx : c.slots[c.idx]? with
+    | none =>
+      have hlen : c.slots.length ≤ c.idx := List.getElem?_eq_none_iff.mp hx
+      have : (foldSrc sd f).step c = .done [] c := by simp [foldSrc, hx]
+      simp only [foldLoop, this]
+      unfold Consumer.Sync at hs
+      cases sd <;> simp [Side.ownedOf, Consumer.owned] <;> omega
+    | some x =>
+      by_cases hf : f c.idx = true
+      · have hstep : (foldSrc sd f).step c = .yield [arg sd.owns c.idx x] x (sd.after c c.pos true) := by simp [foldSrc, hx, hf]
+        obtain ⟨hs', _, _⟩ := side_after_A sd hg c hs true hx c.pos rfl
+        have i1 : (sd.after c c.pos true).idx = c.idx + 1 := by cases sd <;> rfl
+        have i2 : (sd.after c c.pos true).slots = c.slots := by cases sd <;> rfl
+        simp only [foldLoop, hstep] at hok ⊢
+        have hlt : c.idx < c.slots.length := (List.getElem?_eq_some_iff.mp hx).1
+        exact ih _ hs' (by rw [i1, i2]; omega) hok
+      · have hstep : (foldSrc sd f).step c = .panic [arg sd.owns c.idx x, Ev.panic c.idx] (sd.after c c.pos false) := by
+          simp [foldSrc, hx, hf]
+        simp [foldLoop, hstep] at hok
+
+/-- a fold over an owning, position-correct consumer of `l` with a closure that may panic at any
+    call: every element of `l` is given to the closure or dropped, exactly once -/
+theorem consumer_fold_ledger (sd : Side) (hg : sd.GoodA) (hown : sd.owns = true) (hm : sd ≠ .manual)
+    (f : Nat → Bool) (l : List Id) :
+    (gives (foldLoop (foldSrc sd f) (l.length + 1) (Consumer.ofList l)).1 ++
+        drops (foldLoop (foldSrc sd f) (l.length + 1) (Consumer.ofList l)).1).Perm l ∧
+      uninitDrops (foldLoop (foldSrc sd f) (l.length + 1) (Consumer.ofList l)).1 = 0 := by
+  obtain ⟨hp, hu⟩ := foldLoop_ledger (foldSrc sd f) sd.ownedOf Consumer.Sync (foldSrc_contract sd hg f) rfl
+    (l.length + 1) (Consumer.ofList l) (ofList_sync l)
+  rw [ownedOf_ofList sd l hown hm, foldLoop_takes_nil, List.append_nil] at hp
+  cases hok : (foldLoop (foldSrc sd f) (l.length + 1) (Consumer.ofList l)).2.1
+  · simp only [hok, Bool.false_eq_true, if_false, List.append_nil] at hp
+    exact ⟨hp, hu⟩
+  · -- the closure never panicked: the consumer was read to the end, nothing is left in it
+    refine ⟨?_, hu⟩
+    simp only [hok, if_true] at hp
+    rw [fold_ok_exhausts sd hg f _ _ (ofList_sync l) (by simp [Consumer.ofList]) hok, List.append_nil] at hp
+    exact hp
+
+/-- `GenericArrayIter::fold` with a closure that panics at any call (the iterator, still owned by
+    the frame, is dropped while unwinding): every remaining element is given or dropped once -/
+theorem iter_fold_ledger (it : GA.Iter.Iter) (f : Nat → Bool) :
+    (gives (GA.IterOwn.foldD it f).1 ++ drops (GA.IterOwn.foldD it f).1).Perm (GA.Iter.abs it) ∧
+      uninitDrops (GA.IterOwn.foldD it f).1 = 0 := by
+  unfold GA.IterOwn.foldD GA.Iter.abs
+  simp only [ga_bridge]
+  exact consumer_fold_ledger (.consumer (fun p _ => p + 1) true) (consumer_side_good _ _ rfl (fun _ => rfl)) rfl
+    (by simp) f _
+
+/-- `GenericArrayIter::rfold`, likewise (the elements are visited back to front) -/
+theorem iter_rfold_ledger (it : GA.Iter.Iter) (f : Nat → Bool) :
+    (gives (GA.IterOwn.rfoldD it f).1 ++ drops (GA.IterOwn.rfoldD it f).1).Perm (GA.Iter.abs it) ∧
+      uninitDrops (GA.IterOwn.rfoldD it f).1 = 0 := by
+  unfold GA.IterOwn.rfoldD GA.Iter.abs
+  simp only [ga_bridge]
+  generalize GA.Iter.sliceOf it.slots it.front it.back = live
+  cases hl : live with
+  | nil => simp [foldLoop, foldSrc, Consumer.ofList, gives, drops, uninitDrops]
+  | cons x t =>
+    rw [← hl]
+    have hpos : 0 < live.reverse.length := by rw [hl]; simp
+    have := consumer_fold_ledger (.consumer (fun p _ => p + (live.reverse.length - (live.reverse.length - 1))) true)
+      (consumer_side_good _ _ rfl (fun p => by omega)) rfl (by simp) f live.reverse
+    exact ⟨this.1.trans (List.reverse_perm _), this.2⟩
+
+/-- `Clone for GenericArrayIter` with an element `clone` that panics at any index: the clones made
+    so far are dropped exactly once, the originals are only lent -/
+theorem iter_clone_ledger (it : GA.Iter.Iter) (f : Nat → Option Id) :
+    (drops (GA.IterOwn.cloneD it f).1 ++ (GA.IterOwn.cloneD it f).2.ids).Perm (takes (GA.IterOwn.cloneD it f).1) ∧
+      gives (GA.IterOwn.cloneD it f).1 = [] ∧ uninitDrops (GA.IterOwn.cloneD it f).1 = 0 := by
+  unfold GA.IterOwn.cloneD
+  rw [GA.Bridge.IterOwn.cloneGuarded_eq]
+  have := GA.IterOwn.cloneLoop_ledger f (GA.Iter.asSlice it) 0 []
+  simpa using this
+
 /-! The property distinguishes: if a consumer's position were stored *after* the closure call
     (the mutation the anchors warn about), an element handed to a panicking closure would also be
     dropped by the consumer — refuted by evaluation. -/
@@ -170,3 +280,6 @@ end GA.Props.C04
 #print axioms GA.Props.C04.zip_ledger
 #print axioms GA.Props.C04.fold_ledger
 #print axioms GA.Props.C04.collect_ledger
+#print axioms GA.Props.C04.iter_fold_ledger
+#print axioms GA.Props.C04.iter_rfold_ledger
+#print axioms GA.Props.C04.iter_clone_ledger
